@@ -56,14 +56,16 @@ CLAIMED = {
         design_ref="DESIGN.md §4 C10",
         text=("Bounded model checking of every FreeWord operation (new/from/empty, six product forms, *=, inverse, "
               "raised_to, commutator, rotated, Ord, ==, relator_representative) against an array oracle for all "
-              "words over 2 generators (3 for the order) with operands of <= 2 letters (quick; rotation <= 5) / "
-              "<= 3 letters (thorough). relator_permutations (BTreeSet) is excluded."),
+              "words over 2 generators (3 for the order) with operands of <= 2 letters (quick; rotation <= 5; "
+              "commutator, associativity and relator_representative only in the thorough tier) / <= 3 letters "
+              "(thorough). relator_permutations (BTreeSet) is excluded."),
         note=("Decided: reducedness, equality with the oracle free reduction, group laws, strict total order, relator "
               "representative = least rotation/inverse rotation. Not decided: relator_permutations, longer words.")),
     "C14": dict(
         design_ref="DESIGN.md §4 C14",
         text=("Bounded model checking of gcdx (|a|,|b| <= 12 / 40), diagonalize_in_place (determinantal divisors "
-              "preserved, diagonal non-negative; 1x2, 2x1, 2x2 quick; 2x2 entries <= 6, 2x3, 3x2 thorough), "
+              "preserved, diagonal non-negative; 1x2, 2x1 entries <= 3 and 2x2 entries <= 1 quick; 2x2 entries <= 2..6, "
+              "2x3, 3x2 thorough), "
               "relator_as_vector algebra and abelian_invariants end to end against the closed-form invariant "
               "factors (min(relators, generators) <= 2; diagonal 3x3 thorough)."),
         note=("Invariance under inverting/rotating/conjugating relators and adding products is decided on "
@@ -73,8 +75,8 @@ CLAIMED = {
         design_ref="DESIGN.md §4 C18",
         text=("Model checking of the real compiled code within stated bounds: residue classes for ALL i64/i32 "
               "inputs and all pairs of canonical representatives (P = 2, 7, 3037000493); Matrix and VecMatrix over "
-              "i64 and Z/7 for every shape up to 2x1 / 1x2 and 2x2 rank (quick), all of 2x2, 1x3, 3x1, 2x3, 3x2, "
-              "3x3 determinant (thorough) with small symbolic entries. PARTIAL: BigRational / f64 back ends, "
+              "i64 and Z/7 for the shapes 1x1, 1x2, 2x1 (quick), 2x2, 1x3, 3x1, 2x3, 3x2, 3x3 determinant "
+              "(thorough) with small symbolic entries. PARTIAL: BigRational / f64 back ends, "
               "modular_solver::solve, PeriodicGraph::position and the >= 4x4 echelon determinant are NOT decided."),
         note=("Decided clauses: canonical residues + field laws; rank/determinant/null space/solve/inverse exact "
               "and panic-free per shape. Not decided: BigRational, p-adic solver, pgraphs client, entries up to 1e9.")),
@@ -83,7 +85,8 @@ CLAIMED = {
         text=("Bounded model checking of ONE INDUCTIVE STEP of IntPartition from an arbitrary state satisfying the "
               "union-by-rank representation invariant: find / unite / clone(+union on either side) with symbolic "
               "arguments keep a forest and change the induced partition exactly as specified, representatives are "
-              "stable; new() and lazy growth establish the invariant. 3 elements (+1 grown) quick, 4 thorough; "
+              "stable; new() and lazy growth establish the invariant. unite: 3 elements, find and clone: 2 elements "
+              "(+1 grown) quick; find/clone 3, find/unite 4 elements thorough; "
               "histories of any length follow by induction. PARTIAL: the generic Partition<T> (HashMap index) and "
               "classes() are NOT decided."),
         note=("The invariant is an over-approximation of the reachable states; failure to preserve its rank clause "
